@@ -66,6 +66,16 @@ Definition call_mass (l : list Q) (thr : Q) : option Q :=
   match call_gt l thr with Some g => Some (other_mass l g) | None => None end.
 
 (* ---------------------------------------------------------------- specification side *)
+(* q rounded (towards zero) to 80 significant bits: |qround q - q| <= 2^-79 |q|.  Used by the
+   correspondence check before the slack-tolerant rules below are evaluated on exact model values whose
+   numerators and denominators have thousands of digits. *)
+Definition qround (q : Q) : Q :=
+  let n := Qnum q in
+  let d := Zpos (Qden q) in
+  if (n =? 0)%Z then 0 else
+  let e := (Z.log2 d - Z.log2 (Z.abs n) + 80)%Z in
+  if (0 <=? e)%Z then Qmake (Z.quot (n * 2 ^ e) d) (Z.to_pos (2 ^ e)) else q.
+
 (* g is the unique maximum of l and exceeds the threshold *)
 Definition unique_max_above (l : list Q) (thr : Q) (g : nat) : Prop :=
   (g < 3)%nat /\ thr < nthq l g /\ forall h, (h < 3)%nat -> h <> g -> nthq l h < nthq l g.
